@@ -197,6 +197,176 @@ def run_predict(cfg):
     return dict(stats=eng.stats.as_dict(), violations=viol)
 
 
+# ------------------------------------------------------------------ layer 1d: balanced predictions, any batch size
+
+
+class _SymRows:
+    """a batch whose number of rows is a symbolic integer; slicing clamps like NumPy"""
+
+    dtype = numpy.dtype("float64")
+
+    def __init__(self, n, whole=True):
+        self.n, self.whole = n, whole
+        self.shape = (n, 1)
+
+    def __len__(self):
+        return int(self.n)
+
+    def __getitem__(self, sl):
+        if isinstance(sl, slice) and sl.step in (None, 1):
+            a = 0 if sl.start is None else sl.start
+            b = self.n if sl.stop is None else sx.sif(sl.stop < self.n, sl.stop, self.n) if sx.is_sym(self.n) or sx.is_sym(sl.stop) else min(sl.stop, self.n)
+            return _SymRows(b - a, whole=False)
+        raise sx.SXError("unsupported indexing of the symbolic batch")
+
+
+class _NPB(_NP):
+    def concatenate(self, parts, *a, **k):
+        parts = list(parts)
+        if any(isinstance(p_, _SymRows) for p_ in parts):
+            return _SymRows(sx.ssum([p_.n for p_ in parts]), whole=False)
+        if all(p_ is None for p_ in parts):
+            return None
+        return numpy.concatenate(parts, *a, **k)
+
+    def empty(self, shape, dtype=None, **k):
+        if any(sx.is_sym(v) for v in (shape if isinstance(shape, tuple) else (shape,))):
+            return _SymRows(shape[0] if isinstance(shape, tuple) else shape, whole=False)
+        return super().empty(shape, dtype=dtype, **k)
+
+
+def run_predict_batch(cfg):
+    """constraint_predictions on a batch of SYMBOLIC size n (k <= n <= nmax): the association that enforces the
+    sizes runs once, on the whole batch, with limit = n // k and leftover = n - limit*k (balancing parts of the
+    batch separately does not balance the batch)"""
+    m = loader.load("mlmodel._kmeans_constraint_")
+    k = cfg["k"]
+
+    def h(e):
+        n = e.int("n", k, cfg["nmax"])
+        calls = []
+
+        def assoc(leftover, counters, labels, leftclose, dclose, centers, X, xsn, limit, strategy, state=None):
+            calls.append(dict(leftover=leftover, limit=limit, rows=X.shape[0], labels=labels.shape[0], whole=getattr(X, "whole", None)))
+            return None
+
+        rnd = _Rnd(e)
+        with harness.patched(m, numpy=_NPB(rnd), row_norms=lambda *a, **kw: None, _constraint_association=assoc):
+            m.constraint_predictions(_SymRows(n), numpy.zeros((k, 1)), cfg["strategy"], state=None)
+        e.prove(len(calls) == 1, "predict(balanced)/one-association-over-the-whole-batch", detail=len(calls))
+        c = calls[0]
+        e.prove_eq(c["rows"], n, "predict(balanced)/one-association-over-the-whole-batch")
+        e.prove_eq(c["labels"], n, "predict(balanced)/one-association-over-the-whole-batch")
+        e.prove_eq(c["limit"] * k + c["leftover"], n, "predict(balanced)/quota=n//k,leftover=n-k*quota")
+        e.prove(sx.SymBool(z3.And(sx.term(c["leftover"]) >= 0, sx.term(c["leftover"]) < k)) if sx.is_sym(c["leftover"]) else 0 <= c["leftover"] < k, "predict(balanced)/quota=n//k,leftover=n-k*quota")
+
+    eng = sx.Engine(name=f"C07{cfg}")
+    eng.explore(h, on_exception=lambda e, exc: e.prove(False, "predict(balanced)/raises", detail=f"{type(exc).__name__}: {exc}"))
+    viol = []
+    for c in eng.cex[:1]:
+        ok, obs = replay_predict_batch(cfg, c.inputs, c.label)
+        viol.append(harness.violation(c.label, c.label, cfg, c.inputs, obs, ok))
+    return dict(stats=eng.stats.as_dict(), violations=viol)
+
+
+def replay_predict_batch(cfg, inputs, label):
+    """real estimator, real batches around the model's size and at sizes whose parts have remainders"""
+    kc = loader.load("mlmodel.kmeans_constraint")
+    n0 = int(inputs.get("n", 300))
+    sizes = sorted(set([n0, n0 + 1, n0 + 2, 2 * n0 + 1, 300, 515, 520, 600, 1030, 2051]))
+    strategy = cfg["strategy"].replace("_p", "")
+    tried = 0
+    for k in (3, 5, cfg["k"]):
+        rng = numpy.random.RandomState(k)
+        est = kc.ConstraintKMeans(n_clusters=k, strategy=strategy, random_state=0, balanced_predictions=True).fit(rng.randn(6 * k, 2))
+        for n in sizes:
+            if strategy == "gain" and n % k:
+                continue  # known finding: gain and n mod k >= 2
+            B = rng.randn(n, 2)
+            tried += 1
+            try:
+                lab = est.predict(B)
+            except Exception as ex:
+                return True, dict(batch_rows=n, k=k, raised=f"{type(ex).__name__}: {str(ex)[:160]}")
+            if not _sizes_ok(lab, n, k):
+                return True, dict(batch_rows=n, k=k, strategy=strategy, sizes=numpy.bincount(lab, minlength=k).tolist(), data=f"RandomState({k}).randn({n},2) after the training draw")
+    return False, f"balanced sizes on {tried} real batches"
+
+
+# ------------------------------------------------------------------ layer 1c: the iteration counter
+
+
+def run_niter(cfg):
+    """n_iter_ <= max_iter through the real ConstraintKMeans.fit -> constraint_kmeans (method) -> constraint_kmeans
+    (function, real loop).  KMeans.fit is its contract (n_iter_ = any i0 with 1 <= i0 <= the max_iter it is given);
+    association / centres / inertia inside the loop are stubs (arbitrary inertia per iteration: every early stop)."""
+    m = loader.load("mlmodel._kmeans_constraint_")
+    kc = loader.load("mlmodel.kmeans_constraint")
+    n, k = 4, 2
+
+    def h(e):
+        mi = e.realize(e.int("max_iter", 1, cfg["max_iter"]))
+        est = kc.ConstraintKMeans(n_clusters=k, max_iter=mi, kmeans0=cfg["kmeans0"], strategy=cfg["strategy"], random_state=0)
+        X = numpy.zeros((n, 1))
+        seen = {}
+
+        def parent_fit(self, Xa, y=None, sample_weight=None):
+            seen["parent_max_iter"] = self.max_iter
+            i0 = e.int("kmeans_n_iter", 0, None)
+            e.assume(i0 <= self.max_iter)  # scikit-learn: n_iter_ <= max_iter (0 only when max_iter is 0)
+            e.assume(sx.SymBool(z3.Or(i0.t >= 1, z3.BoolVal(self.max_iter == 0))))
+            self.labels_ = numpy.zeros(n, dtype=numpy.int32)
+            self.cluster_centers_ = numpy.zeros((k, 1))
+            self.inertia_ = 1.0
+            self.n_iter_ = i0
+            return self
+
+        cnt = [0]
+
+        def inertia_stub(**kw):
+            cnt[0] += 1
+            v = e.real(f"inertia{cnt[0]}")
+            e.add_definition(v.t >= 0)
+            return None, v
+
+        stubs = dict(row_norms=lambda *a, **kw: None, _constraint_association=lambda *a, **kw: None, _centers_dense=lambda X, sw, labels, nc, dc: numpy.zeros((k, 1)), _labels_inertia_skl=inertia_stub)
+        with harness.patched(kc.KMeans, fit=parent_fit), harness.patched(m, **stubs):
+            est.fit(X)
+        e.prove(est.max_iter == mi, "n_iter/max_iter-restored")
+        e.prove(est.n_iter_ <= mi, "n_iter_<=max_iter", detail=str(est.n_iter_))
+        e.prove(est.n_iter_ >= 0, "n_iter_>=0")
+
+    eng = sx.Engine(name=f"C07{cfg}")
+    eng.explore(h, on_exception=lambda e, exc: e.prove(False, "n_iter/raises", detail=f"{type(exc).__name__}: {exc}"))
+    viol = []
+    for c in eng.cex[:1]:
+        ok, obs = replay_niter(cfg, c.inputs, c.label)
+        viol.append(harness.violation(c.label, c.label, cfg, c.inputs, obs, ok))
+    return dict(stats=eng.stats.as_dict(), violations=viol)
+
+
+def replay_niter(cfg, inputs, label):
+    kc = loader.load("mlmodel.kmeans_constraint")
+    tried = 0
+    for mi in sorted(set([int(inputs.get("max_iter", 4))] + list(range(1, 13)))):
+        for seed in range(6):
+            rng = numpy.random.RandomState(seed)
+            X = numpy.vstack([rng.randn(7, 2) + 4 * c for c in range(3)])
+            for kmeans0 in (cfg["kmeans0"], not cfg["kmeans0"]):
+                if kmeans0 and mi < 2:
+                    continue  # max_iter=1 hands KMeans max_iter=0, which scikit-learn refuses (on the unchanged tree too)
+                tried += 1
+                try:
+                    est = kc.ConstraintKMeans(n_clusters=3, max_iter=mi, kmeans0=kmeans0, strategy=cfg["strategy"], random_state=seed).fit(X)
+                except Exception as ex:
+                    if "The algorithm failed" in str(ex):
+                        continue
+                    return True, dict(max_iter=mi, seed=seed, raised=f"{type(ex).__name__}: {str(ex)[:160]}")
+                if not 0 <= est.n_iter_ <= mi or est.max_iter != mi:
+                    return True, dict(max_iter=mi, n_iter_=int(est.n_iter_), max_iter_after=int(est.max_iter), kmeans0=kmeans0, seed=seed, data=f"3 blobs of 7 points, RandomState({seed})")
+    return False, f"n_iter_ <= max_iter on {tried} real fits"
+
+
 # ------------------------------------------------------------------ layer 2a: the processing order
 
 
@@ -593,7 +763,7 @@ def replay(cfg, inputs, label):
 
 
 def run_config(cfg):
-    return dict(e2e=run_e2e, predict=run_predict, rindex=run_rindex, dstep=run_distance_step, gquota=run_gain_quota, gstep=run_gain_step)[cfg["kind"]](cfg)
+    return dict(e2e=run_e2e, niter=run_niter, predict_batch=run_predict_batch, predict=run_predict, rindex=run_rindex, dstep=run_distance_step, gquota=run_gain_quota, gstep=run_gain_step)[cfg["kind"]](cfg)
 
 
 def configs(tier):
@@ -607,6 +777,10 @@ def configs(tier):
     for strategy in ("distance", "gain"):
         out.append(dict(kind="predict", n=2, k=2, strategy=strategy, balanced=True))
     out.append(dict(kind="predict", n=3, k=2, strategy="distance", balanced=False))
+    for strategy in ("distance_p", "gain_p"):
+        out.append(dict(kind="predict_batch", k=3, strategy=strategy, nmax=100000))
+    for kmeans0 in (True, False):
+        out.append(dict(kind="niter", kmeans0=kmeans0, strategy="gain", max_iter=5 if tier == "quick" else 9))
     for nn in (3, 4) if tier == "quick" else (3, 4, 5):
         out.append(dict(kind="rindex", n=nn, state=True))
     out.append(dict(kind="rindex", n=3, state=False))
@@ -629,7 +803,8 @@ def configs(tier):
 def run(ctx, rep):
     rep.engine = "SX (end to end, tiny) + SX on AST slices of the real functions (inductive steps, all n)"
     rep.add_functions("mlmodel._kmeans_constraint_", ["constraint_predictions", "_constraint_association", "_constraint_association_distance", "_constraint_association_gain", "_switch_clusters", "_randomize_index", "linearize_matrix", "_compute_strategy_coefficient"])
-    rep.add_functions("mlmodel.kmeans_constraint", ["ConstraintKMeans.predict"])
+    rep.add_functions("mlmodel.kmeans_constraint", ["ConstraintKMeans.predict", "ConstraintKMeans.fit", "ConstraintKMeans.constraint_kmeans"])
+    rep.add_functions("mlmodel._kmeans_constraint_", ["constraint_kmeans"])
     cfgs = configs(ctx.tier)
     rep.bounds = dict(processing_order="_randomize_index: n <= 4 (quick) / 5 (thorough) points, every starting order, tie pattern and draw", end_to_end=sorted(set((c["n"], c["k"]) for c in cfgs if c["kind"] == "e2e")), inductive_steps="k <= 3 (quick) / 4 (thorough); n, limit, counters symbolic and UNBOUNDED", draws="every rand / randint / permutation outcome (symbolic)")
     rep.assumptions = [
